@@ -1,6 +1,7 @@
 package main
 
 import (
+	"go/types"
 	"encoding/json"
 	"flag"
 	"fmt"
@@ -573,6 +574,7 @@ func main() {
 	genUn := flag.String("gen-unions", "", "write the generated union-dispatch harness to this file and exit")
 	genEq := flag.String("gen-equals", "", "write generated Equals harness files into this directory and exit")
 	modPath := flag.String("modpath", "verifgen", "module path of the generated code")
+	listRanges := flag.Bool("list-mapranges", false, "print every `range` over a map in the code under test (file:line function) and exit")
 	flag.IntVar(&pathStatsK, "pathstats", 0, "development aid: print a histogram of paths over their first K explicit choices")
 	flag.Parse()
 	if *genEq != "" {
@@ -643,6 +645,35 @@ func main() {
 	prog, spkgs := ssautil.AllPackages(pkgs, ssa.InstantiateGenerics)
 	prog.Build()
 	loadS := time.Since(t0).Seconds()
+	if *listRanges {
+		seen := map[string]bool{}
+		var sites []string
+		for fn := range ssautil.AllFunctions(prog) {
+			if fn.Blocks == nil || !isUnderTest(fn) || isHarnessFunc(fn) || strings.Contains(fn.String(), "zzverif") {
+				continue
+			}
+			for _, b := range fn.Blocks {
+				for _, in := range b.Instrs {
+					r, ok := in.(*ssa.Range)
+					if !ok {
+						continue
+					}
+					if _, isMap := r.X.Type().Underlying().(*types.Map); !isMap {
+						continue
+					}
+					pos := prog.Fset.Position(r.Pos()).String()
+					if strings.HasSuffix(prog.Fset.Position(r.Pos()).Filename, "_test.go") || seen[pos] {
+						continue
+					}
+					seen[pos] = true
+					sites = append(sites, pos+" "+fn.String())
+				}
+			}
+		}
+		sort.Strings(sites)
+		fmt.Println(strings.Join(sites, "\n"))
+		return
+	}
 
 	sh := &Shared{cfg: cfg, prog: prog, extraIntrinsics: map[string]func(*Engine, *ssa.Function, []Value) Value{}}
 	sh.cond = sync.NewCond(&sh.mu)
